@@ -416,6 +416,18 @@ def c05(tier, seed):
             rep.violation(dict(kind="isolation", clause=v["clause"]),
                           dict(kind="async_trace", job={k: job[k] for k in job if k != "runs"}, run=dict(history=run["history"], sched=run.get("sched")), verdict=v),
                           text=f"{t['id']}: episode {m['eps']} is not a behaviour of the law although episode 0 of the same graph is: {v['detail'][:500]}")
+    # binding of the implementation-shaped model RexAsync to the code (coarse gate): internal traces; thorough: exhaustive MC_RexAsync
+    from . import internalchecks
+
+    it_cfgs = [double_tie_config(seed), double_tie_config(seed + 3)] + _graphs(seed + 550, 2 if quick else 8)
+    it_hists = [["reset", "step", "step", "stop"], ["run", "run", "run", "stop"], ["run", "stop", "reset", "step", "stop"], ["reset", "stop"],
+                ["stop", "run", "stop", "stop", "reset", "step", "stop"]]
+    out_it, dl = internalchecks.internal_campaign(rep, "C05", it_cfgs, it_hists, 2 if quick else 6, seed, POLICIES)
+    for o in dl:
+        rep.violation(dict(kind="deadlock", history="internal"), dict(kind="lifecycle_internal", run=o), text=f"{o['id']}: logical deadlock under the coarse gate: {o['detail'][:300]}")
+    if not quick:
+        internalchecks.mc_rexasync(rep, "MC_RexAsync_A2.cfg", common.NPROC)
+        internalchecks.mc_rexasync(rep, "MC_RexAsync_B2.cfg", common.NPROC)
     nruns = sum(len(j["runs"]) for j in jobs)
     rep.cov["evaluations"] = nruns
     rep.cov["lifecycle_histories"] = {k: v for k, v in C05_HISTORIES.items()}
